@@ -244,6 +244,16 @@ def _check(case):
     m2 = m.copy()
     api("rescale_stds", m2.rescale_stds, case["scale"])
     acov2 = api("get_acov_rescaled", m2.get_acov, up_to_order=order)
+    # the same rescaling one kind of shocks at a time (a model without measurement shocks has an empty selection there)
+    m3 = m.copy()
+    import irispie as ir_
+    api("rescale_stds_by_kind", m3.rescale_stds, case["scale"], kind=ir_.MEASUREMENT_STD)
+    api("rescale_stds_by_kind", m3.rescale_stds, case["scale"], kind=ir_.TRANSITION_STD)
+    acov3 = api("get_acov_rescaled_by_kind", m3.get_acov, up_to_order=order)
+    f2, f3 = _flat(acov2), _flat(acov3)
+    col.check(len(f2) == len(f3) and all(x.shape == y.shape and np.allclose(x, y, rtol=1e-9, atol=1e-13, equal_nan=True) for x, y in zip(f2, f3)),
+              "rescale_stds:by_kind_differs",
+              lambda: f"rescale_stds({case['scale']}, kind=MEASUREMENT_STD) then kind=TRANSITION_STD gives other autocovariances than rescale_stds({case['scale']})")
     if nv == 1:
         acov2 = [acov2]
     asym = False
